@@ -193,7 +193,7 @@ REGEX_RULES = [
     ('R25:let-normal-take', r"self\.set_pixels\(sx, sy, ex, ey, take_u32\(colors, count\)\)",
      r"{ let vf_t = take_u32(colors, count); let ghost vf_gt = vf_t; let vf_r = self.set_pixels(sx, sy, ex, ey, vf_t); proof { assert(crate::vf::iter_lawful(vf_gt)); assert(crate::vf::iter_yields(vf_gt) == vf_gt.remaining()); assert(vf_gt.remaining() == fc_colors(*area, cl, ys)); } vf_r }"),
     ('R25:let-normal-takeskip', r"self\.set_pixels\(\n(\s*)sx,\n\s*sy,\n\s*ex,\n\s*ey,\n\s*take_u32\(TakeSkip::new\(colors, take_per_row, skip_per_row\), count\),\n\s*\)",
-     r"{ let ghost vf_c0 = colors.remaining();\n\1let vf_ts = TakeSkip::new(colors, take_per_row, skip_per_row); let ghost vf_gts = vf_ts;\n\1let vf_t = take_u32(vf_ts, count); let ghost vf_gt = vf_t;\n\1let vf_r = self.set_pixels(sx, sy, ex, ey, vf_t);\n\1proof { assert(vf_gts.remaining() == ts_seq(vf_c0, take_per_row, take_per_row, skip_per_row)); assert(crate::vf::iter_lawful(vf_gt)); assert(crate::vf::iter_yields(vf_gt) == vf_gt.remaining()); assert(vf_gt.remaining() == fc_colors(*area, cl, ys)); }\n\1vf_r\n\1}"),
+     r"{ let ghost vf_c0 = colors.remaining();\n\1let vf_ts = TakeSkip::new(colors, take_per_row, skip_per_row); let ghost vf_gts = vf_ts;\n\1let vf_t = take_u32(vf_ts, count); let ghost vf_gt = vf_t;\n\1let vf_r = self.set_pixels(sx, sy, ex, ey, vf_t);\n\1proof { assert(vf_gts.remaining() == ts_seq(vf_c0, take_per_row as u32, take_per_row as u32, skip_per_row as u32)); assert(crate::vf::iter_lawful(vf_gt)); assert(crate::vf::iter_yields(vf_gt) == vf_gt.remaining()); assert(vf_gt.remaining() == fc_colors(*area, cl, ys)); }\n\1vf_r\n\1}"),
     ('R26:ref-eq', r"if &intersection == area \{", r"if intersection == *area {"),
     ('R5:sized', r"pub trait InterfacePixelFormat<Word> \{", r"pub trait InterfacePixelFormat<Word>: Sized {"),
     ('R11:to_be_bytes', r"&self\.(\w+)\.to_be_bytes\(\)", r"&crate::vf::u16_to_be_bytes(self.\1)"),
